@@ -364,5 +364,17 @@ def build_wcs(w):
     c, sn = math.cos(rho), math.sin(rho)
     wcs.wcs.cd = [[s * c * p, -s * sn], [s * sn * p, s * c]]
     wcs.wcs.cunit = ['deg', 'deg']
+    if w.get('sip'):
+        # a mild SIP distortion (~0.5 px at 100 px from CRPIX): the only kind
+        # of WCS for which mode='all' and mode='wcs' differ
+        import numpy as np
+        from astropy.wcs import Sip
+        k = float(w['sip'])
+        a = np.zeros((3, 3))
+        b = np.zeros((3, 3))
+        a[2, 0], a[1, 1], a[0, 2] = 5e-5 * k, -2e-5 * k, 1e-5 * k
+        b[2, 0], b[1, 1], b[0, 2] = -1e-5 * k, 4e-5 * k, 3e-5 * k
+        wcs.wcs.ctype = [c + '-SIP' for c in wcs.wcs.ctype]
+        wcs.sip = Sip(a, b, None, None, wcs.wcs.crpix)
     wcs.wcs.set()
     return wcs
